@@ -259,6 +259,19 @@ def one_case(ctx, M, keys, case, verbose=False):
         return None
     if [D.val_sexp(v) for v in pvals] != jsonless(vs):
         ctx.violation('parse_certificate', 'parse-differs', 'parse_certificate does not return the strictly read field values', c)
+    # parse_data on the same wire: name, MetaInfo, content, SignatureType/KeyLocator and signature as parse_certificate has them
+    try:
+        dn, dmeta, dcontent, dptrs = parse_data(wire)
+        same = ([bytes(x) for x in dn] == [bytes(x) for x in pc.name]
+                and (dmeta.content_type, dmeta.freshness_period) == (pc.meta_info.content_type, pc.meta_info.freshness_period)
+                and (None if dcontent is None else bytes(dcontent)) == (None if pc.content is None else bytes(pc.content))
+                and (None if dptrs.signature_value_buf is None else bytes(dptrs.signature_value_buf))
+                == (None if pc.signature_value is None else bytes(pc.signature_value))
+                and dptrs.signature_info.signature_type == pc.signature_info.signature_type)
+        if not same:
+            ctx.violation('parse_data', 'parse-data-differs', 'parse_data and parse_certificate disagree on the common fields', c)
+    except Exception as e:   # noqa
+        ctx.violation('parse_data', 'parse-data-raises', f'parse_data raises {type(e).__name__} on an issued certificate', c)
     kn_norm = [bytes(x) for x in Name.normalize(key_name_py(kn))]
     if nb_alt is not None and nb_alt != nb:
         try:
